@@ -108,7 +108,12 @@ def count(
         "detectors": [det.name for det in detectors],
         "num_points": num,
         "num_intervals": num_intervals,
-        "plan_args": {"detectors": list(map(repr, detectors)), "num": num, "delay": delay},
+        "plan_args": {
+            "detectors": list(map(repr, detectors)),
+            "num": num,
+            # a one-shot iterator of delays (e.g. a generator) can be neither copied nor serialized
+            "delay": repr(delay) if isinstance(delay, collections.abc.Iterator) else delay,
+        },
         "plan_name": "count",
         "hints": {},
     }
